@@ -3,22 +3,30 @@ import QipVerif.Lemmas.RenderAligned
 equal widths after the final padding — for circuits whose every iteration appends at most one
 piece of at most the layer's width to each wire (`opOk`). -/
 namespace QipVerif.Render
+variable {v : Variant}
 
 /-! ## the decidable hypothesis -/
 
 /-- every wire in the span of the targets is a target -/
 def contig (ts : List Nat) : Bool := (pyRange (lmin ts) (lmax ts + 1)).all fun w => decide (w ∈ ts)
 
+/-- A gate with a target list covered by `equal_width_partial`: at least one target, all its qubits
+exist, and — unless the tree has the repair `spanFix` — **a box with controls has contiguous
+targets** (the shipped code draws a multi-target box over the gap wire, and then draws the control
+bridges on the gap wire a second time). -/
+def gateOk (v : Variant) (N : Nat) (name : Str) (targets : List Nat) (controls : Option (List Nat)) : Bool :=
+  !targets.isEmpty && (targets ++ ctrlList controls).all (fun q => decide (q < N)) &&
+    (decide (targets.length = 1 ∧ controls = none) || decide (name = swapName) || !truthy controls ||
+      v.spanFix || contig targets)
+
 /-- Circuit elements covered by `equal_width_partial`: a measurement has one target, a qubit;
-a gate has at least one target and acts on qubits; and **a box with controls has contiguous
-targets** (a multi-target box with a gap in its targets is drawn over the gap wire, and the
-control bridges are then drawn on the gap wire a second time). -/
-def opOk (N : Nat) : Op → Bool
+a gate satisfies `gateOk`; a gate on the whole register is covered iff the tree has the repair
+`globalBox` (the shipped code raises `TypeError`). -/
+def opOk (v : Variant) (N : Nat) : Op → Bool
   | .meas [t0] _ => decide (t0 < N)
   | .meas _ _ => false
-  | .gate name _ targets controls =>
-    !targets.isEmpty && (targets ++ ctrlList controls).all (fun q => decide (q < N)) &&
-      (decide (targets.length = 1 ∧ controls = none) || decide (name = swapName) || !truthy controls || contig targets)
+  | .gate name _ targets controls => gateOk v N name targets controls
+  | .glob name _ => v.globalBox && gateOk v N name (List.range N) none
 
 /-- style / size hypotheses of `equal_width_partial` -/
 def styleOk (sty : Style) (N C : Nat) : Bool :=
@@ -71,8 +79,8 @@ theorem updCbridge_fst {N t0 store : Nat} {wl : List Nat} {width : Nat} :
       split at h <;> cases h <;> exact ⟨hw, hne⟩
 
 theorem updQbridge_fst {ts cs wl : List Nat} {width : Nat} {isTop : Bool} :
-    ((updQbridge ts cs wl width isTop).map (·.1)).Sublist wl ∧
-    ∀ a ∈ updQbridge ts cs wl width isTop, a.1 ∈ wl ∧ a.1 ∉ ts := by
+    ((updQbridge v ts cs wl width isTop).map (·.1)).Sublist wl ∧
+    ∀ a ∈ updQbridge v ts cs wl width isTop, a.1 ∈ wl ∧ inBox v ts a.1 = false := by
   constructor
   · apply filterMap_fst_sublist
     intro w a h
@@ -86,9 +94,23 @@ theorem updQbridge_fst {ts cs wl : List Nat} {width : Nat} {isTop : Bool} :
     split at h
     · cases h
     · rename_i hne
+      have hne' : inBox v ts w = false := by simpa using hne
       split at h
-      · split at h <;> cases h <;> exact ⟨hw, hne⟩
-      · cases h; exact ⟨hw, hne⟩
+      · split at h <;> cases h <;> exact ⟨hw, hne'⟩
+      · cases h; exact ⟨hw, hne'⟩
+
+/-- a wire the bridge pass draws lies outside the span of the targets (repaired tree: by its test;
+shipped tree: when the targets are contiguous) -/
+theorem outside_of_not_inBox {ts : List Nat} {w : Nat} (hv : v.spanFix = true ∨ contig ts = true)
+    (h : inBox v ts w = false) : ¬ (lmin ts ≤ w ∧ w ≤ lmax ts) := by
+  unfold inBox at h
+  rcases hv with hv | hv
+  · rw [hv] at h; simpa using h
+  · intro hin
+    have hm := contig_mem hv hin.1 hin.2
+    cases hs : v.spanFix with
+    | true => rw [hs] at h; simp at h; omega
+    | false => rw [hs] at h; simp at h; exact h hm
 
 theorem updSwap_fst (p : Nat) (wl : List Nat) : (updSwap p wl).map (·.1) = wl := by
   unfold updSwap
@@ -101,23 +123,10 @@ theorem updSwap_fst (p : Nat) (wl : List Nat) : (updSwap p wl).map (·.1) = wl :
   · rfl
   · split <;> rfl
 
-theorem updTargetMultiq_fst (ts wl : List Nat) (b : Box) : (updTargetMultiq ts wl b).map (·.1) = wl := by
+theorem updTargetMultiq_fst (ts cs wl : List Nat) (b : Box) : (updTargetMultiq v ts cs wl b).map (·.1) = wl := by
   unfold updTargetMultiq
   rw [List.map_map]
-  have : ((fun a : Nat × Seg => a.1) ∘ fun x : Nat × Nat =>
-      if ts.length = 1 then (x.2, ({ top := b.top, mid := b.midLabel, bot := b.bot } : Seg))
-      else if x.1 = 0 ∧ x.2 ∈ ts then (x.2, { top := b.midFrame, mid := b.midLabel, bot := b.bot })
-      else if x.1 = wl.length - 1 ∧ x.2 ∈ ts then (x.2, { top := b.top, mid := b.midConnect, bot := b.midFrame })
-      else (x.2, { top := b.midFrame, mid := b.midFrame, bot := b.midFrame })) = Prod.snd := by
-    funext x
-    simp only [Function.comp]
-    split
-    · rfl
-    · split
-      · rfl
-      · split <;> rfl
-  refine Eq.trans ?_ (List.map_snd_zip (l₁ := List.range wl.length) (l₂ := wl) (by simp))
-  congr 1
+  exact List.map_snd_zip (l₁ := List.range wl.length) (l₂ := wl) (by simp)
 
 theorem sublist_nodup_mem {l wl : List Nat} (h : l.Sublist wl) (hn : wl.Nodup) : l.Nodup := hn.sublist h
 
@@ -125,9 +134,193 @@ theorem mem_map_fst {acts : List (Nat × Seg)} {w : Nat} (h : w ∈ acts.map (·
   obtain ⟨a, ha, rfl⟩ := List.mem_map.mp h
   exact ⟨a, ha, rfl⟩
 
+/-- Lemma A for a gate with a target list -/
+theorem planGate_ok {p N C : Nat} {name : Str} {argLabel : Option Str} {targets : List Nat}
+    {controls : Option (List Nat)} {pl : Plan} (hop : gateOk v N name targets controls = true)
+    (h : planGate v p name argLabel targets controls = .ok pl) : PlanOk N C pl := by
+  simp only [gateOk, Bool.and_eq_true, Bool.or_eq_true, Bool.not_eq_true', List.all_eq_true, decide_eq_true_eq] at hop
+  obtain ⟨⟨hne, hlt⟩, hshape⟩ := hop
+  have hne' : targets ≠ [] := by intro h; simp [h] at hne
+  have hlt' : ∀ q ∈ targets, q < N := fun q hq => hlt q (List.mem_append_left _ hq)
+  have htmax : lmax targets < N := hlt' _ (lmax_mem hne')
+  have hmm : lmin targets ≤ lmax targets := lmin_le (lmax_mem hne')
+  simp only [planGate] at h
+  split at h
+  · -- single
+    rename_i h1
+    cases h
+    have hg := drawSingleq_w p (gateText name argLabel)
+    obtain ⟨t, ht⟩ : ∃ t, targets = [t] := by
+      match targets, h1.1 with
+      | [t], _ => exact ⟨t, rfl⟩
+    subst ht
+    refine ⟨by simp, ?_, by simp [updSingleq], by simp [updSingleq], ?_, ?_⟩
+    · intro w hw; have := hlt' w hw; omega
+    · intro a ha
+      exact ⟨_, by dsimp only; rw [hg.top]; exact Nat.le_refl _, updSingleq_w hg _ a ha⟩
+    · rintro ⟨w, hw, hN⟩
+      have := hlt' w hw; omega
+  · rename_i h1
+    split at h
+    · -- swap
+      split at h
+      · cases h
+      · cases h
+        refine ⟨nodup_pyRange .., ?_, ?_, ?_, ?_, ?_⟩
+        · intro w hw; have := mem_pyRange.mp hw; omega
+        · rw [updSwap_fst]; exact nodup_pyRange ..
+        · intro a ha
+          have : a.1 ∈ (updSwap p (pyRange (lmin targets) (lmax targets + 1))).map (·.1) :=
+            List.mem_map.mpr ⟨a, ha, rfl⟩
+          rwa [updSwap_fst] at this
+        · intro a ha
+          exact ⟨_, Nat.le_refl _, updSwap_w p _ a ha⟩
+        · rintro ⟨w, hw, hN⟩
+          have := mem_pyRange.mp hw; omega
+    · -- multi-qubit box
+      rename_i h2
+      split at h
+      · cases h
+      · have hb := drawMultiq_w v p (gateText name argLabel) targets controls
+        have hmne : targets ++ ctrlList controls ≠ [] := by simp [hne']
+        have hmmax : lmax (targets ++ ctrlList controls) < N := hlt _ (lmax_mem hmne)
+        have htlo : lmin (targets ++ ctrlList controls) ≤ lmin targets :=
+          lmin_le (List.mem_append_left _ (lmin_mem hne'))
+        have hthi : lmax targets ≤ lmax (targets ++ ctrlList controls) :=
+          le_lmax (List.mem_append_left _ (lmax_mem hne'))
+        have hwl_lt : ∀ w ∈ pyRange (lmin (targets ++ ctrlList controls)) (lmax (targets ++ ctrlList controls) + 1),
+            w < N + C := by
+          intro w hw; have := mem_pyRange.mp hw; omega
+        have hzero : (∃ w ∈ pyRange (lmin (targets ++ ctrlList controls)) (lmax (targets ++ ctrlList controls) + 1),
+            N ≤ w) → 0 ∈ pyRange (lmin (targets ++ ctrlList controls)) (lmax (targets ++ ctrlList controls) + 1) := by
+          rintro ⟨w, hw, hN⟩
+          have := mem_pyRange.mp hw; omega
+        have ha0 := updTargetMultiq_fst (v := v) targets (ctrlList controls) (pyRange (lmin targets) (lmax targets + 1))
+          (drawMultiq v p (gateText name argLabel) targets controls)
+        have ha0sub : ∀ a ∈ updTargetMultiq v targets (ctrlList controls) (pyRange (lmin targets) (lmax targets + 1))
+            (drawMultiq v p (gateText name argLabel) targets controls),
+            a.1 ∈ pyRange (lmin targets) (lmax targets + 1) := by
+          intro a ha
+          have : a.1 ∈ (updTargetMultiq v targets (ctrlList controls) (pyRange (lmin targets) (lmax targets + 1))
+            (drawMultiq v p (gateText name argLabel) targets controls)).map (·.1) := List.mem_map.mpr ⟨a, ha, rfl⟩
+          rwa [ha0] at this
+        have hwidth : 2 ≤ (drawMultiq v p (gateText name argLabel) targets controls).top.length := by
+          rw [hb.top]; omega
+        split at h
+        · -- with controls
+          rename_i htr
+          have hcontig : v.spanFix = true ∨ contig targets = true := by
+            rcases hshape with (((hs | hs) | hs) | hs) | hs
+            · exact absurd hs h1
+            · exact absurd hs h2
+            · rw [hs] at htr; cases htr
+            · exact Or.inl hs
+            · exact Or.inr hs
+          have hcne : ctrlList controls ≠ [] := by
+            unfold truthy at htr
+            cases controls with
+            | none => cases htr
+            | some l => intro hl; simp [ctrlList] at hl; subst hl; simp at htr
+          have hchi : lmax (ctrlList controls) ≤ lmax (targets ++ ctrlList controls) :=
+            le_lmax (List.mem_append_right _ (lmax_mem hcne))
+          have hclo : lmin (targets ++ ctrlList controls) ≤ lmin (ctrlList controls) :=
+            lmin_le (List.mem_append_right _ (lmin_mem hcne))
+          cases h
+          -- the three groups of appends
+          have hq1 := fun (it : Bool) => @updQbridge_fst v targets (ctrlList controls)
+            (pyRange (lmin targets) (lmax (ctrlList controls) + 1))
+            (drawMultiq v p (gateText name argLabel) targets controls).top.length it
+          have hq2 := fun (it : Bool) => @updQbridge_fst v targets (ctrlList controls)
+            (pyRange (lmin (ctrlList controls)) (lmax targets + 1))
+            (drawMultiq v p (gateText name argLabel) targets controls).top.length it
+          -- wires of the bridges lie strictly outside the span of the targets
+          have hout1 : ∀ it, ∀ a ∈ updQbridge v targets (ctrlList controls)
+              (pyRange (lmin targets) (lmax (ctrlList controls) + 1))
+              (drawMultiq v p (gateText name argLabel) targets controls).top.length it,
+              lmax targets < a.1 ∧ a.1 ≤ lmax (ctrlList controls) := by
+            intro it a ha
+            obtain ⟨hm, hnt⟩ := (hq1 it).2 a ha
+            have hm' := mem_pyRange.mp hm
+            have := outside_of_not_inBox hcontig hnt
+            omega
+          have hout2 : ∀ it, ∀ a ∈ updQbridge v targets (ctrlList controls)
+              (pyRange (lmin (ctrlList controls)) (lmax targets + 1))
+              (drawMultiq v p (gateText name argLabel) targets controls).top.length it,
+              a.1 < lmin targets ∧ lmin (ctrlList controls) ≤ a.1 := by
+            intro it a ha
+            obtain ⟨hm, hnt⟩ := (hq2 it).2 a ha
+            have hm' := mem_pyRange.mp hm
+            have := outside_of_not_inBox hcontig hnt
+            omega
+          refine ⟨nodup_pyRange .., hwl_lt, ?_, ?_, ?_, hzero⟩
+          · simp only [List.map_append]
+            refine List.nodup_append.mpr ⟨List.nodup_append.mpr ⟨?_, ?_, ?_⟩, ?_, ?_⟩
+            · rw [ha0]; exact nodup_pyRange ..
+            · split
+              · exact sublist_nodup_mem (hq1 _).1 (nodup_pyRange ..)
+              · simp
+            · intro x hx y hy
+              rw [ha0] at hx
+              have hx' := mem_pyRange.mp hx
+              split at hy
+              · obtain ⟨a, ha, rfl⟩ := mem_map_fst hy
+                have := hout1 _ a ha; omega
+              · cases hy
+            · split
+              · exact sublist_nodup_mem (hq2 _).1 (nodup_pyRange ..)
+              · simp
+            · intro x hx y hy
+              split at hy
+              · obtain ⟨a, ha, rfl⟩ := mem_map_fst hy
+                have h2' := hout2 _ a ha
+                rcases List.mem_append.mp hx with hx | hx
+                · rw [ha0] at hx
+                  have hx' := mem_pyRange.mp hx; omega
+                · split at hx
+                  · obtain ⟨a', ha', rfl⟩ := mem_map_fst hx
+                    have h1' := hout1 _ a' ha'
+                    have : lmin targets ≤ lmax targets := lmin_le (lmax_mem hne')
+                    omega
+                  · cases hx
+              · cases hy
+          · intro a ha
+            rcases List.mem_append.mp ha with ha | ha
+            · rcases List.mem_append.mp ha with ha | ha
+              · have := mem_pyRange.mp (ha0sub a ha)
+                exact mem_pyRange.mpr ⟨by omega, by omega⟩
+              · split at ha
+                · have := hout1 _ a ha
+                  have : lmin targets ≤ lmax targets := lmin_le (lmax_mem hne')
+                  exact mem_pyRange.mpr ⟨by omega, by omega⟩
+                · cases ha
+            · split at ha
+              · have := hout2 _ a ha
+                exact mem_pyRange.mpr ⟨by omega, by omega⟩
+              · cases ha
+          · intro a ha
+            rcases List.mem_append.mp ha with ha | ha
+            · rcases List.mem_append.mp ha with ha | ha
+              · exact ⟨_, by rw [hb.top]; exact Nat.le_refl _, updTargetMultiq_w hb (by omega) _ _ _ _ a ha⟩
+              · split at ha
+                · exact ⟨_, by dsimp only; omega, updQbridge_w _ _ _ _ _ _ hwidth a ha⟩
+                · cases ha
+            · split at ha
+              · exact ⟨_, by dsimp only; omega, updQbridge_w _ _ _ _ _ _ hwidth a ha⟩
+              · cases ha
+        · -- without controls
+          cases h
+          refine ⟨nodup_pyRange .., hwl_lt, ?_, ?_, ?_, hzero⟩
+          · rw [ha0]; exact nodup_pyRange ..
+          · intro a ha
+            have := mem_pyRange.mp (ha0sub a ha)
+            exact mem_pyRange.mpr ⟨by omega, by omega⟩
+          · intro a ha
+            exact ⟨_, by rw [hb.top]; exact Nat.le_refl _, updTargetMultiq_w hb (by omega) _ _ _ _ a ha⟩
+
+
 /-- **Lemma A**: the iteration of a covered element appends at most one piece, of at most the
 layer's width, to each wire of its wire list. -/
-theorem plan_ok {p N C : Nat} {op : Op} {pl : Plan} (hop : opOk N op = true) (h : plan p N C op = .ok pl) :
+theorem plan_ok {p N C : Nat} {op : Op} {pl : Plan} (hop : opOk v N op = true) (h : plan v p N C op = .ok pl) :
     PlanOk N C pl := by
   cases op with
   | meas targets store =>
@@ -167,187 +360,10 @@ theorem plan_ok {p N C : Nat} {op : Op} {pl : Plan} (hop : opOk N op = true) (h 
         · exact ⟨_, by dsimp only; rw [hw.top]; omega, updCbridge_w _ _ _ _ _ a h'⟩
       · intro _
         exact List.mem_append_left _ (mem_pyRange.mpr ⟨by omega, by omega⟩)
-  | gate name argLabel targets controls =>
-    simp only [opOk, Bool.and_eq_true, Bool.or_eq_true, Bool.not_eq_true', List.all_eq_true, decide_eq_true_eq] at hop
-    obtain ⟨⟨hne, hlt⟩, hshape⟩ := hop
-    have hne' : targets ≠ [] := by intro h; simp [h] at hne
-    have hlt' : ∀ q ∈ targets, q < N := fun q hq => hlt q (List.mem_append_left _ hq)
-    have htmax : lmax targets < N := hlt' _ (lmax_mem hne')
-    have hmm : lmin targets ≤ lmax targets := lmin_le (lmax_mem hne')
-    simp only [plan] at h
-    split at h
-    · -- single
-      rename_i h1
-      cases h
-      have hg := drawSingleq_w p (gateText name argLabel)
-      obtain ⟨t, ht⟩ : ∃ t, targets = [t] := by
-        match targets, h1.1 with
-        | [t], _ => exact ⟨t, rfl⟩
-      subst ht
-      refine ⟨by simp, ?_, by simp [updSingleq], by simp [updSingleq], ?_, ?_⟩
-      · intro w hw; have := hlt' w hw; omega
-      · intro a ha
-        exact ⟨_, by dsimp only; rw [hg.top]; exact Nat.le_refl _, updSingleq_w hg _ a ha⟩
-      · rintro ⟨w, hw, hN⟩
-        have := hlt' w hw; omega
-    · rename_i h1
-      split at h
-      · -- swap
-        split at h
-        · cases h
-        · cases h
-          refine ⟨nodup_pyRange .., ?_, ?_, ?_, ?_, ?_⟩
-          · intro w hw; have := mem_pyRange.mp hw; omega
-          · rw [updSwap_fst]; exact nodup_pyRange ..
-          · intro a ha
-            have : a.1 ∈ (updSwap p (pyRange (lmin targets) (lmax targets + 1))).map (·.1) :=
-              List.mem_map.mpr ⟨a, ha, rfl⟩
-            rwa [updSwap_fst] at this
-          · intro a ha
-            exact ⟨_, Nat.le_refl _, updSwap_w p _ a ha⟩
-          · rintro ⟨w, hw, hN⟩
-            have := mem_pyRange.mp hw; omega
-      · -- multi-qubit box
-        rename_i h2
-        split at h
-        · cases h
-        · have hb := drawMultiq_w p (gateText name argLabel) targets controls
-          have hmne : targets ++ ctrlList controls ≠ [] := by simp [hne']
-          have hmmax : lmax (targets ++ ctrlList controls) < N := hlt _ (lmax_mem hmne)
-          have htlo : lmin (targets ++ ctrlList controls) ≤ lmin targets :=
-            lmin_le (List.mem_append_left _ (lmin_mem hne'))
-          have hthi : lmax targets ≤ lmax (targets ++ ctrlList controls) :=
-            le_lmax (List.mem_append_left _ (lmax_mem hne'))
-          have hwl_lt : ∀ w ∈ pyRange (lmin (targets ++ ctrlList controls)) (lmax (targets ++ ctrlList controls) + 1),
-              w < N + C := by
-            intro w hw; have := mem_pyRange.mp hw; omega
-          have hzero : (∃ w ∈ pyRange (lmin (targets ++ ctrlList controls)) (lmax (targets ++ ctrlList controls) + 1),
-              N ≤ w) → 0 ∈ pyRange (lmin (targets ++ ctrlList controls)) (lmax (targets ++ ctrlList controls) + 1) := by
-            rintro ⟨w, hw, hN⟩
-            have := mem_pyRange.mp hw; omega
-          have ha0 := updTargetMultiq_fst targets (pyRange (lmin targets) (lmax targets + 1))
-            (drawMultiq p (gateText name argLabel) targets controls)
-          have ha0sub : ∀ a ∈ updTargetMultiq targets (pyRange (lmin targets) (lmax targets + 1))
-              (drawMultiq p (gateText name argLabel) targets controls),
-              a.1 ∈ pyRange (lmin targets) (lmax targets + 1) := by
-            intro a ha
-            have : a.1 ∈ (updTargetMultiq targets (pyRange (lmin targets) (lmax targets + 1))
-              (drawMultiq p (gateText name argLabel) targets controls)).map (·.1) := List.mem_map.mpr ⟨a, ha, rfl⟩
-            rwa [ha0] at this
-          have hwidth : 2 ≤ (drawMultiq p (gateText name argLabel) targets controls).top.length := by
-            rw [hb.top]; omega
-          split at h
-          · -- with controls
-            rename_i htr
-            have hcontig : contig targets = true := by
-              rcases hshape with ((hs | hs) | hs) | hs
-              · exact absurd hs h1
-              · exact absurd hs h2
-              · rw [hs] at htr; cases htr
-              · exact hs
-            have hcne : ctrlList controls ≠ [] := by
-              unfold truthy at htr
-              cases controls with
-              | none => cases htr
-              | some l => intro hl; simp [ctrlList] at hl; subst hl; simp at htr
-            have hchi : lmax (ctrlList controls) ≤ lmax (targets ++ ctrlList controls) :=
-              le_lmax (List.mem_append_right _ (lmax_mem hcne))
-            have hclo : lmin (targets ++ ctrlList controls) ≤ lmin (ctrlList controls) :=
-              lmin_le (List.mem_append_right _ (lmin_mem hcne))
-            cases h
-            -- the three groups of appends
-            have hq1 := fun (it : Bool) => @updQbridge_fst targets (ctrlList controls)
-              (pyRange (lmin targets) (lmax (ctrlList controls) + 1))
-              (drawMultiq p (gateText name argLabel) targets controls).top.length it
-            have hq2 := fun (it : Bool) => @updQbridge_fst targets (ctrlList controls)
-              (pyRange (lmin (ctrlList controls)) (lmax targets + 1))
-              (drawMultiq p (gateText name argLabel) targets controls).top.length it
-            -- wires of the bridges lie strictly outside the span of the targets
-            have hout1 : ∀ it, ∀ a ∈ updQbridge targets (ctrlList controls)
-                (pyRange (lmin targets) (lmax (ctrlList controls) + 1))
-                (drawMultiq p (gateText name argLabel) targets controls).top.length it,
-                lmax targets < a.1 ∧ a.1 ≤ lmax (ctrlList controls) := by
-              intro it a ha
-              obtain ⟨hm, hnt⟩ := (hq1 it).2 a ha
-              have hm' := mem_pyRange.mp hm
-              refine ⟨?_, by omega⟩
-              apply Nat.lt_of_not_le
-              intro hle
-              exact hnt (contig_mem hcontig hm'.1 hle)
-            have hout2 : ∀ it, ∀ a ∈ updQbridge targets (ctrlList controls)
-                (pyRange (lmin (ctrlList controls)) (lmax targets + 1))
-                (drawMultiq p (gateText name argLabel) targets controls).top.length it,
-                a.1 < lmin targets ∧ lmin (ctrlList controls) ≤ a.1 := by
-              intro it a ha
-              obtain ⟨hm, hnt⟩ := (hq2 it).2 a ha
-              have hm' := mem_pyRange.mp hm
-              refine ⟨?_, hm'.1⟩
-              apply Nat.lt_of_not_le
-              intro hle
-              exact hnt (contig_mem hcontig hle (by omega))
-            refine ⟨nodup_pyRange .., hwl_lt, ?_, ?_, ?_, hzero⟩
-            · simp only [List.map_append]
-              refine List.nodup_append.mpr ⟨List.nodup_append.mpr ⟨?_, ?_, ?_⟩, ?_, ?_⟩
-              · rw [ha0]; exact nodup_pyRange ..
-              · split
-                · exact sublist_nodup_mem (hq1 _).1 (nodup_pyRange ..)
-                · simp
-              · intro x hx y hy
-                rw [ha0] at hx
-                have hx' := mem_pyRange.mp hx
-                split at hy
-                · obtain ⟨a, ha, rfl⟩ := mem_map_fst hy
-                  have := hout1 _ a ha; omega
-                · cases hy
-              · split
-                · exact sublist_nodup_mem (hq2 _).1 (nodup_pyRange ..)
-                · simp
-              · intro x hx y hy
-                split at hy
-                · obtain ⟨a, ha, rfl⟩ := mem_map_fst hy
-                  have h2' := hout2 _ a ha
-                  rcases List.mem_append.mp hx with hx | hx
-                  · rw [ha0] at hx
-                    have hx' := mem_pyRange.mp hx; omega
-                  · split at hx
-                    · obtain ⟨a', ha', rfl⟩ := mem_map_fst hx
-                      have h1' := hout1 _ a' ha'
-                      have : lmin targets ≤ lmax targets := lmin_le (lmax_mem hne')
-                      omega
-                    · cases hx
-                · cases hy
-            · intro a ha
-              rcases List.mem_append.mp ha with ha | ha
-              · rcases List.mem_append.mp ha with ha | ha
-                · have := mem_pyRange.mp (ha0sub a ha)
-                  exact mem_pyRange.mpr ⟨by omega, by omega⟩
-                · split at ha
-                  · have := hout1 _ a ha
-                    have : lmin targets ≤ lmax targets := lmin_le (lmax_mem hne')
-                    exact mem_pyRange.mpr ⟨by omega, by omega⟩
-                  · cases ha
-              · split at ha
-                · have := hout2 _ a ha
-                  exact mem_pyRange.mpr ⟨by omega, by omega⟩
-                · cases ha
-            · intro a ha
-              rcases List.mem_append.mp ha with ha | ha
-              · rcases List.mem_append.mp ha with ha | ha
-                · exact ⟨_, by rw [hb.top]; exact Nat.le_refl _, updTargetMultiq_w hb _ _ a ha⟩
-                · split at ha
-                  · exact ⟨_, by dsimp only; omega, updQbridge_w _ _ _ _ _ hwidth a ha⟩
-                  · cases ha
-              · split at ha
-                · exact ⟨_, by dsimp only; omega, updQbridge_w _ _ _ _ _ hwidth a ha⟩
-                · cases ha
-          · -- without controls
-            cases h
-            refine ⟨nodup_pyRange .., hwl_lt, ?_, ?_, ?_, hzero⟩
-            · rw [ha0]; exact nodup_pyRange ..
-            · intro a ha
-              have := mem_pyRange.mp (ha0sub a ha)
-              exact mem_pyRange.mpr ⟨by omega, by omega⟩
-            · intro a ha
-              exact ⟨_, by rw [hb.top]; exact Nat.le_refl _, updTargetMultiq_w hb _ _ a ha⟩
+  | gate name argLabel targets controls => exact planGate_ok hop h
+  | glob name argLabel =>
+    simp only [opOk, Bool.and_eq_true] at hop
+    simp only [plan, hop.1, if_true] at h
+    exact planGate_ok hop.2 h
 
 end QipVerif.Render
